@@ -1,7 +1,7 @@
 """Wrapper2: two ordered_guarded objects X, Y of one instantiation and nested calls X -> Y (C01).
 
 cfg = [mutexkind, initX, initY, payloadkind]; ops: c ... on X, 100 + c ... on Y, 50 fid c ... = X.modify(f) whose
-functor calls Y.<op c> (c: 18 modify / 19 read / 15 load).  Only the direction X -> Y is nested (no lock-order
+functor calls Y.<op c> (c: 18 modify / 19 read / 15 load), 60 = `X = Y;` (payload kind 0 only).  Only the direction X -> Y is nested (no lock-order
 cycle); see harness/wrapper2_drv.cpp and coq/Model/Wrapper2Model.v.
 """
 from events import K
@@ -15,6 +15,7 @@ SANITIZE = False
 
 LOCK_SH, TRYLOCK_SH, UNLOCK, DESTROY, USE, LOAD, STORE, ASSIGN, MODIFY, READ, CAST = 4, 5, 9, 10, 13, 15, 16, 17, 18, 19, 22
 NESTED = 50
+ASSIGN_XY = 60   # X = Y; (instrumented payload kind only)
 LOCK_KINDS = (K['LOCK'], K['TRYLOCK'], K['TRYLOCK_FOR'], K['LOCK_SH'], K['TRYLOCK_SH'], K['TRYLOCK_SH_FOR'])
 
 
@@ -40,6 +41,8 @@ def gen(rng, tier, spec):
             if r < 4:
                 inner = rng.weighted([(5, [MODIFY, rng.range(1, 12)]), (2, [READ, rng.range(1, 12)]), (2, [LOAD])])
                 ops.append([NESTED, rng.range(1, 12)] + inner)
+            elif r < 5 and cfg[3] == 0 and not counter_only:
+                ops.append([ASSIGN_XY])
             elif r < 7:
                 o = _simple(rng, counter_only)
                 ops.append([100 + o[0]] + o[1:])
@@ -118,7 +121,7 @@ def _writes_of(op):
         return 1 + (1 if len(op) > 2 and op[2] == MODIFY else 0)
     if c == MODIFY:
         return 1
-    if c in (STORE, ASSIGN):
+    if c in (STORE, ASSIGN, ASSIGN_XY):
         return None
     return 0
 
@@ -147,7 +150,7 @@ def mon_nested_locks_inner(case, lines):
     """an operation on Y made from inside X.modify's functor acquires Y's mutex: the nested operation shows
     acquisitions of two different mutexes"""
     for o in _ops(case, lines):
-        if o['op'][0] == NESTED and o['ret'] is not None:
+        if o['op'][0] in (NESTED, ASSIGN_XY) and o['ret'] is not None:
             ms = set(ob for (_, k, ob, v) in o['events'] if k in (K['LOCK'], K['LOCK_SH']))
             if len(ms) < 2:
                 return 'thread %d: %s completed with lock operations on %d mutex(es) only (trace line %d)' % (o['t'], o['op'], len(ms), o['at'])
@@ -158,9 +161,29 @@ def mon_op_unlocked(case, lines):
     """a completed whole-object operation contains no acquisition of a mutex"""
     for o in _ops(case, lines):
         c = o['op'][0]
-        if (c == NESTED or c % 100 in (LOAD, STORE, ASSIGN, MODIFY, READ, CAST)) and o['ret'] is not None:
+        if (c in (NESTED, ASSIGN_XY) or c % 100 in (LOAD, STORE, ASSIGN, MODIFY, READ, CAST)) and o['ret'] is not None:
             if not any(k in (K['LOCK'], K['LOCK_SH']) for (_, k, _, _) in o['events']):
                 return 'thread %d: %s completed without acquiring a mutex (trace line %d)' % (o['t'], o['op'], o['at'])
+    return None
+
+
+def mon_write_outside_section(case, lines):
+    """every access window of X's (Y's) object lies inside a critical section of X's (Y's) own mutex held by
+    that thread; Y's objects are numbered from 1000"""
+    held = {}
+    for i, l in enumerate(lines):
+        if len(l) != 5 or l[0] < 0:
+            continue
+        t, k, o, v, m = l
+        side = 1 if o >= 1000 else 0
+        if k in (K['LOCK'], K['LOCK_SH']) or (k in LOCK_KINDS and v):
+            held[(t, side)] = held.get((t, side), 0) + 1
+        elif k in (K['UNLOCK'], K['UNLOCK_SH']):
+            held[(t, side)] = held.get((t, side), 0) - 1
+        elif k in (K['RD_BEGIN'], K['RD_END'], K['WR_BEGIN'], K['WR_END']) and o % 1000 < 100:
+            if held.get((t, side), 0) <= 0:
+                return 'thread %d accesses the object of %s (event kind %d, trace line %d) without holding the mutex of %s' % (
+                    t, 'XY'[side], k, i, 'XY'[side])
     return None
 
 
@@ -172,5 +195,5 @@ def mon_deadlock(case, lines):
     return None
 
 
-MONITORS = {'window_fault': mon_window_fault, 'lost_update': mon_lost_update, 'nested_locks_inner': mon_nested_locks_inner,
+MONITORS = {'write_outside_section': mon_write_outside_section, 'window_fault': mon_window_fault, 'lost_update': mon_lost_update, 'nested_locks_inner': mon_nested_locks_inner,
             'op_unlocked': mon_op_unlocked, 'deadlock': mon_deadlock}
